@@ -12,12 +12,12 @@ namespace MayVerif.Mutex
 /-- **Mutual exclusion**: at most one actor is inside the critical section. -/
 theorem mutex_mutual_exclusion (n : Nat) (sched : List (Tid × Env)) (t u : Tid)
     (ht : (run (init n 1) sched).pcs t = .held) (hu : (run (init n 1) sched).pcs u = .held) : t = u :=
-  (inv_run _ sched (inv_init n 1 (by omega))).g1 t u (by simp [ht, carrierA]) (by simp [hu, carrierA])
+  (inv_run _ sched (inv_init n)).g1 t u (by simp [ht, carrierA]) (by simp [hu, carrierA])
 
 /-- the permit is never in two places: while somebody holds the lock the counter shows "locked" -/
 theorem mutex_held_not_free (n : Nat) (sched : List (Tid × Env)) (t : Tid)
     (ht : (run (init n 1) sched).pcs t = .held) : (run (init n 1) sched).sh.cnt ≤ 0 := by
-  have h := inv_run _ sched (inv_init n 1 (by omega))
+  have h := inv_run _ sched (inv_init n)
   have h5 := h.g5
   have h4 := h.g4
   by_cases hc : 0 < (run (init n 1) sched).sh.cnt
@@ -51,7 +51,7 @@ theorem mutex_try_lock_never_blocks (sh : Sh) (t : Tid) (e : Env) : (tstep sh t 
 /-- `expect("got null blocker!")` never fires: whenever an actor is about to pop the waiter queue, it is non-empty. -/
 theorem mutex_pop_never_empty (n : Nat) (sched : List (Tid × Env)) (t : Tid) (ht : t < n)
     (hp : atPop ((run (init n 1) sched).pcs t) = true) : (run (init n 1) sched).sh.q ≠ [] := by
-  have h := inv_run _ sched (inv_init n 1 (by omega))
+  have h := inv_run _ sched (inv_init n)
   have hn : (run (init n 1) sched).n = n := by simpa [init] using run_n (init n 1) sched
   generalize run (init n 1) sched = s at *
   have hpos : 0 < cntOf s.n atPop s.pcs := by
@@ -67,7 +67,7 @@ theorem mutex_pop_never_empty (n : Nat) (sched : List (Tid × Env)) (t : Tid) (h
 /-- **Hand-over happens at most once**: when an unlock/cancel race is resolved, never do both the waker and
     the cancelled waiter pass the lock on (which would let two later lockers in). -/
 theorem mutex_handoff_at_most_once (n : Nat) (sched : List (Tid × Env)) : (run (init n 1) sched).sh.dup = false :=
-  (inv_run _ sched (inv_init n 1 (by omega))).nodupDuty
+  (inv_run _ sched (inv_init n)).nodupDuty
 
 /-- **Hand-over happens at least once**: a blocker that was popped by an unlock (`vph = v4`: the waker is done)
     and whose owner was cancelled (`aph = a5`: the abort path is done) has had the lock passed on by
@@ -75,7 +75,7 @@ theorem mutex_handoff_at_most_once (n : Nat) (sched : List (Tid × Env)) : (run 
 theorem mutex_handoff_committed (n : Nat) (sched : List (Tid × Env)) (b : Bid)
     (ha : (run (init n 1) sched).sh.aph b = .a5) (hv : (run (init n 1) sched).sh.vph b = .v4) :
     (run (init n 1) sched).sh.duty b = true := by
-  have h := (inv_run _ sched (inv_init n 1 (by omega))).ok b
+  have h := (inv_run _ sched (inv_init n)).ok b
   rw [ha, hv] at h
   exact ok_final _ _ _ h
 
@@ -89,7 +89,7 @@ theorem mutex_no_stranded_waiter_partial (n : Nat) (sched : List (Tid × Env))
     (hq : ∀ t, t < n → (run (init n 1) sched).pcs t = .idle ∨ ∃ b, (run (init n 1) sched).pcs t = .w5park b)
     (hfree : (run (init n 1) sched).sh.cnt > 0) (t : Tid) (ht : t < n) (b : Bid)
     (hp : (run (init n 1) sched).pcs t = .w5park b) : (run (init n 1) sched).sh.tok b = true := by
-  have h := inv_run _ sched (inv_init n 1 (by omega))
+  have h := inv_run _ sched (inv_init n)
   have hn : (run (init n 1) sched).n = n := by simpa [init] using run_n (init n 1) sched
   generalize run (init n 1) sched = s at *
   have hF0 : cntOf s.n atFsub s.pcs = 0 := by
@@ -116,6 +116,73 @@ theorem mutex_no_stranded_waiter_partial (n : Nat) (sched : List (Tid × Env))
   have hv4 : s.sh.vph b = .v4 := by
     cases hv : s.sh.vph b <;> simp_all
   exact h.n3 t b (by simp [hp, owns]) (Or.inr (Or.inr hv4))
+
+/-- **No stranded waiter** (full quiescence form of "every lock() eventually returns once earlier holders release:
+    an unlock always hands the lock to a live waiter, also when that waiter is being cancelled"):
+    in every reachable state in which every actor is idle or parked – nobody holds the lock, nobody is in the middle
+    of an operation – and somebody is parked, some parked waiter already holds its wake-up token, i.e. its park
+    returns and it becomes the holder. The lock is never lost: not by an unlock racing a registration, not by a
+    cancellation racing a hand-over, not with cancelled waiters' stale blockers in the queue. Under any fair
+    scheduler this is exactly "no lock() blocks for ever once the holders release". -/
+theorem mutex_deadlock_free (n : Nat) (sched : List (Tid × Env))
+    (hq : ∀ t, t < n → (run (init n 1) sched).pcs t = .idle ∨ ∃ b, (run (init n 1) sched).pcs t = .w5park b)
+    (t0 : Tid) (ht0 : t0 < n) (b0 : Bid) (hp0 : (run (init n 1) sched).pcs t0 = .w5park b0) :
+    ∃ t b, t < n ∧ (run (init n 1) sched).pcs t = .w5park b ∧ (run (init n 1) sched).sh.tok b = true := by
+  by_cases hfree : (run (init n 1) sched).sh.cnt > 0
+  · exact ⟨t0, b0, ht0, hp0, mutex_no_stranded_waiter_partial n sched hq hfree t0 ht0 b0 hp0⟩
+  · have h := inv_run _ sched (inv_init n)
+    have hn : (run (init n 1) sched).n = n := by simpa [init] using run_n (init n 1) sched
+    generalize run (init n 1) sched = s at *
+    -- nobody carries the lock as an actor
+    have hC0 : cntOf s.n carrierA s.pcs = 0 := by
+      apply cntOf_zero_of; intro u hu
+      rcases hq u (by omega) with h0 | ⟨b', h0⟩ <;> simp [h0, carrierA]
+    -- so it sits in a delivered, unconsumed token
+    have he1 := h.e1
+    have hpb : s.sh.pb.isSome = true := by
+      by_cases hx : s.sh.pb.isSome = true
+      · exact hx
+      · simp [hC0, hx] at he1; omega
+    obtain ⟨b, hb⟩ := Option.isSome_iff_exists.mp hpb
+    obtain ⟨htok, hduty⟩ := h.e2 b hb
+    -- its waker is done
+    have hv : s.sh.vph b = .v2 ∨ s.sh.vph b = .v3 ∨ s.sh.vph b = .v4 := h.n5 b htok
+    have hmid : ¬ (s.sh.vph b = .v1 ∨ s.sh.vph b = .v2 ∨ s.sh.vph b = .v3) := by
+      intro hm
+      obtain ⟨hw, hwn⟩ := h.n2 b hm
+      have hnq := wakes_not_quiet _ _ hw
+      rcases hq (s.sh.wk b) (by omega) with h0 | ⟨b', h0⟩
+      · exact hnq.1 h0
+      · exact hnq.2.2 b' h0
+    have hv4 : s.sh.vph b = .v4 := by
+      rcases hv with h2 | h3 | h4
+      · exact absurd (Or.inr (Or.inl h2)) hmid
+      · exact absurd (Or.inr (Or.inr h3)) hmid
+      · exact h4
+    -- its owner has not consumed it and has not finished an abort
+    have hcons : s.sh.cons b = false := by
+      cases hc : s.sh.cons b
+      · rfl
+      · have := (h.k1 b hc).1; simp [htok] at this
+    have ha5 : s.sh.aph b ≠ .a5 := by
+      intro ha
+      have hok := h.ok b
+      rw [ha, hv4] at hok
+      have := ok_final _ _ _ hok
+      simp [hduty] at this
+    have hbN : b < s.sh.nextB := by
+      cases Nat.lt_or_ge b s.sh.nextB with
+      | inl hlt => exact hlt
+      | inr hge =>
+        have := (h.virgin b hge).2.1
+        rw [hv4] at this; cases this
+    obtain ⟨hown, hownn⟩ := h.o1 b hbN ha5 hcons
+    -- the owner is quiescent, so it is parked on exactly this blocker
+    rcases hq (s.sh.own b) (by omega) with h0 | ⟨b', h0⟩
+    · simp [h0, owns] at hown
+    · have : b' = b := by simpa [h0, owns] using hown
+      subst this
+      exact ⟨s.sh.own b', b', by omega, h0, htok⟩
 
 -- non-vacuity: actor 0 takes the lock on the fast path; actor 1 registers, parks, is handed the lock by 0's unlock
 example : (run (init 2 1) [(0, .startLock), (0, .go)]).pcs 0 = .held := by decide
